@@ -261,6 +261,11 @@ func (e Float32Engine) Inner(a, b Tensor) (retVal float32, err error) {
 		return 0, errors.Errorf("b is not a *Dense")
 	}
 
+	if AD.t != Float32 || BD.t != Float32 {
+		// the storage of any other element type would be read as if it held float32s
+		return 0, errors.Errorf("Float32Engine.Inner expects float32 tensors. Got %v and %v", AD.t, BD.t)
+	}
+
 	if AD.RequiresIterator() || BD.RequiresIterator() {
 		// the dot kernel below walks raw storage: non-contiguous views go through the default engine
 		ret, ierr := e.StdEng.Inner(a, b)
